@@ -1,6 +1,7 @@
 package c06
 
 import (
+	"bytes"
 	"context"
 	"fmt"
 	"strings"
@@ -9,6 +10,7 @@ import (
 	"time"
 
 	dtls "github.com/pion/dtls/v3"
+	dtlsstate "github.com/pion/dtls/v3/internal/state"
 	"github.com/pion/dtls/v3/zzverif/checks"
 	"github.com/pion/dtls/v3/zzverif/world"
 )
@@ -26,6 +28,11 @@ type scen struct {
 	// KeyUpdateAfter > 0 (DTLS 1.3 only): the sender calls UpdateKeys after that many writes, so that the
 	// remaining records travel in the next epoch (separate replay window).
 	KeyUpdateAfter int
+	// PresetSeq > 0: before the writes the sender's record counter of its epoch is set to this value (verif
+	// hook, as C09 does for 2^48) and one primer record with that number is written, delivered and read, so
+	// that the enumerated records sit around a boundary of the sequence-number encoding (DTLS 1.3 puts 16
+	// bits on the wire: multiples of 65536) without 65536 writes. Eager reader only.
+	PresetSeq uint64
 }
 
 func (s scen) effW() int {
@@ -51,6 +58,9 @@ func (s scen) String() string {
 	ku := ""
 	if s.KeyUpdateAfter > 0 {
 		ku = fmt.Sprintf("/ku%d", s.KeyUpdateAfter)
+	}
+	if s.PresetSeq > 0 {
+		ku += fmt.Sprintf("/at%d", s.PresetSeq)
 	}
 	return fmt.Sprintf("%s/%s/%s/W%s/n%d%s", s.V.Name, dir, mode, w, s.N, ku)
 }
@@ -206,6 +216,28 @@ func runSeqIn(w *world.World, p *world.PKI, sc scen, arrivals []int, ex *exec) {
 	ref := []*refWindow{newRefWindow(sc.effW()), newRefWindow(sc.effW())}
 	v13 := v.V13
 	phase := func(ph, from, to int) bool {
+		if ph == 0 && sc.PresetSeq > 0 {
+			dtls.VerifPoke(snd.Conn, func(in dtls.VerifInternals) {
+				cs := dtlsstate.CommonState(in.State)
+				cs.LocalSequenceNumber[cs.LocalEpoch()] = sc.PresetSeq
+			})
+			primer := []byte(fmt.Sprintf("primer-record-at-%d", sc.PresetSeq))
+			pw := w.Go(snd.Name+".Primer", func(*world.Op) error { _, e := snd.Conn.Write(primer); return e })
+			w.Settle()
+			for _, d := range w.InFlight() {
+				w.Deliver(d)
+				w.Settle()
+			}
+			mu.Lock()
+			okp := pw.OK() && len(reads) == 1 && bytes.Equal(reads[0], primer)
+			reads = nil
+			mu.Unlock()
+			if !okp {
+				ex.Violation = fmt.Sprintf("%s: the record written at sequence number %d (first record after a jump of the sender's counter) was not delivered: write=%v", sc, sc.PresetSeq, pw)
+				ex.Key = "record-after-counter-jump-not-delivered"
+				return false
+			}
+		}
 		snap := snd.Snapshot()
 		localEpoch := int(snap.LocalEpoch)
 		var base uint64
